@@ -292,6 +292,61 @@ fn render(toks: &[&str]) -> Vec<u8> {
     out
 }
 
+/// task <n|s> <stream>: the connection task itself (servlin::internal::handle_http_conn) over loop-back, with a handler
+/// that answers 200; the client sends <stream>, closes its sending side and reads to the end.  `s`: a global logger is
+/// installed whose receiver is gone (a stopped logger) -- whatever the task wants to report about the request, it must
+/// still classify it and answer.  observation: task <status code of the first response | none>
+fn task(toks: &[&str]) -> String {
+    use std::io::{Read, Write};
+    let stopped_logger = toks[0] == "s";
+    let data = bytes_of_tok(toks[1]);
+    let table = url_table(&data);
+    let guard = if stopped_logger {
+        let (tx, rx) = std::sync::mpsc::sync_channel(1);
+        drop(rx);
+        servlin::log::set_global_logger(tx).ok()
+    } else {
+        None
+    };
+    let d2 = data.clone();
+    let out = guarded(move || {
+        let listener = std::net::TcpListener::bind("127.0.0.1:0").unwrap();
+        let addr = listener.local_addr().unwrap();
+        let mut client = std::net::TcpStream::connect(addr).unwrap();
+        let (server_std, peer) = listener.accept().unwrap();
+        let _ = client.write_all(&d2);
+        let _ = client.shutdown(std::net::Shutdown::Write);
+        let reader = std::thread::spawn(move || {
+            let mut v = Vec::new();
+            let _ = client.read_to_end(&mut v);
+            v
+        });
+        let stream = async_net::TcpStream::try_from(server_std).unwrap();
+        let conn = servlin::internal::HttpConn::new(peer, stream);
+        let handler = |_req: servlin::Request| async move { Response::text(200, "ok") };
+        let permit = permit::Permit::new();
+        let r = catch_unwind(AssertUnwindSafe(|| {
+            futures_lite::future::block_on(servlin::internal::handle_http_conn(
+                permit.new_sub(),
+                servlin::internal::Token::new(),
+                conn,
+                None,
+                64 * 1024,
+                handler,
+            ));
+        }));
+        let wire = reader.join().unwrap_or_default();
+        let code = if wire.len() >= 12 && wire.starts_with(b"HTTP/1.1 ") {
+            String::from_utf8_lossy(&wire[9..12]).to_string()
+        } else {
+            "none".to_string()
+        };
+        format!("task {code}{}", if r.is_err() { " task-panicked" } else { "" })
+    });
+    drop(guard);
+    format!("{table} ;; {out}")
+}
+
 fn main() {
     run_lines(|toks| {
         let flag = |t: &str| t == "1";
@@ -365,6 +420,7 @@ fn main() {
                 };
                 format!("{} ;; {} ; rq {}", url_table(&data), by_cap!(n, do_try(0, &data)), rq)
             }
+            "task" => task(&toks[1..]),
             "head" | "req" => {
                 let n: usize = toks[1].parse().unwrap();
                 let rd: usize = toks[2].parse().unwrap();
